@@ -70,7 +70,8 @@ class Scn:
 
     def request(self, pol="np", seed=1, bound=4000, prefix=(), flush=0):
         pre = ",".join(map(str, prefix)) if prefix else "-"
-        return f"run {self.cfg()} pol={pol} seed={seed} bound={bound} flush={flush} pre={pre} | {self.scripts_txt()}"
+        split = 1 if pol.endswith("s") else 0       # policies `nps` / `rands` = scheduler split mode
+        return f"run {self.cfg()} pol={pol.rstrip('s')} seed={seed} bound={bound} flush={flush} split={split} pre={pre} | {self.scripts_txt()}"
 
     def model_cfg(self, repaired):
         return f"cfg {self.cfg()} rep={1 if repaired else 0} | {self.scripts_txt()}"
@@ -87,7 +88,7 @@ def parse_request(line):
     s = Scn(scripts, int(kv.get("q", 2)), int(kv.get("min", 0)), int(kv.get("max", 3)), int(kv.get("lazy", 0)),
             int(kv.get("tick", 0)), int(kv.get("sp", 0)))
     pre = [] if kv.get("pre", "-") == "-" else [int(x) for x in kv["pre"].split(",")]
-    return s, kv.get("pol", "np"), int(kv.get("seed", 1)), int(kv.get("bound", 4000)), pre
+    return s, kv.get("pol", "np") + ("s" if kv.get("split", "0") == "1" else ""), int(kv.get("seed", 1)), int(kv.get("bound", 4000)), pre
 
 
 # ---- running -----------------------------------------------------------------------------------------
@@ -118,8 +119,12 @@ def hooks_of(trace):
     return 1 if any(l == "H 1" for l in trace[:3]) else 0
 
 
+def split_of(trace):
+    return 1 if any(l == "P 1" for l in trace[:3]) else 0
+
+
 def driver_lines(scn, trace, repaired):
-    out = [scn.model_cfg(repaired).replace(" rep=", f" hooks={hooks_of(trace)} rep=", 1)]
+    out = [scn.model_cfg(repaired).replace(" rep=", f" hooks={hooks_of(trace)} split={split_of(trace)} rep=", 1)]
     for l in trace:
         if l.startswith("S "):
             out.append("S " + l.split()[1])
@@ -354,7 +359,7 @@ SCN_CACHE = {}
 def exact_request(scn, r):
     """request line that replays a run deterministically (the full choice list as forced prefix)"""
     pre = [c for c, _ in (r["choices"] or [])]
-    return scn.request("np", 1, 20000, pre, flush=1)
+    return scn.request("nps" if " split=1 " in r["req"] else "np", 1, 20000, pre, flush=1)
 
 
 # ---- scenario generators ---------------------------------------------------------------------------------
@@ -482,12 +487,12 @@ def explore(ctx, exe, pool, repaired, stats, on_result):
     ]
     nstress = 400 if quick else 3000
     for scn in stress:
-        submit(scn, [("rand", rng.randrange(1, 10 ** 9), 6000, ()) for _ in range(nstress)])
+        submit(scn, [("rand" if i % 2 else "rands", rng.randrange(1, 10 ** 9), 12000, ()) for i in range(nstress)])
     nscn = 250 if quick else 1500
     per = 12 if quick else 20
     for _ in range(nscn):
         scn = random_scenario(rng)
-        submit(scn, [("rand", rng.randrange(1, 10 ** 9), 6000, ()) for _ in range(per)] + [("np", 1, 6000, ())], chunk=per + 1)
+        submit(scn, [("rand" if i % 2 else "rands", rng.randrange(1, 10 ** 9), 12000, ()) for i in range(per)] + [("np", 1, 6000, ())], chunk=per + 1)
     for scn, fut, we in jobs:
         for r in fut.result():
             on_result(scn, r, "random")
